@@ -137,8 +137,53 @@ func featureSetFor(on map[string]bool, all []string, style int) meta.FeatureSet 
 	return meta.AllFeaturesOn()
 }
 
+// "a malformed expression is an error": wherever it stands and whether or not the configuration gets to evaluate it
+func c11malformedAnywhere(c *core.Ctx) {
+	hdr := "module mf { namespace \"urn:mf\"; prefix mf; revision 2020-01-01; feature a; feature b;\n"
+	places := map[string]string{
+		"below a node that is left out":       `container c { if-feature a; leaf l { if-feature "%s"; type string; } }`,
+		"after an if-feature that is false":   `leaf l { if-feature a; if-feature "%s"; type string; }`,
+		"in a grouping that is not used":      `grouping g { leaf l { if-feature "%s"; type string; } }`,
+		"in a grouping used under a left-out": `grouping g { leaf l { if-feature "%s"; type string; } } container c { if-feature a; uses g; }`,
+		"on a leaf":                           `leaf l { if-feature "%s"; type string; }`,
+		"on a case":                           `choice ch { case k { if-feature "%s"; leaf kl { type string; } } leaf other { type string; } }`,
+		"on a refine":                         `grouping g { leaf l { type string; } } uses g { refine l { if-feature "%s"; description "d"; } }`,
+	}
+	for place, tmpl := range places {
+		for _, expr := range []string{"a or", "and b", "a b", "(a or b", "a or b)", "not", "a or or b", "()", "a and not"} {
+			for cfg, fs := range map[string]meta.FeatureSet{"all on": meta.AllFeaturesOn(), "a off": meta.FeaturesOff([]string{"a"}), "all off": meta.FeaturesOff([]string{"a", "b"})} {
+				y := hdr + fmt.Sprintf(tmpl, expr) + "\n}"
+				var lerr error
+				e := safeDo(func() error {
+					_, lerr = parser.LoadModuleFromStringWithOptions(nil, y, parser.Options{Features: fs})
+					return nil
+				})
+				c.Evaluations++
+				c.Count("malformed_anywhere", place)
+				c.Distinct("malformed " + place + expr + cfg)
+				if e != nil || lerr == nil {
+					c.Violation(core.Replay{Kind: "property-failure", Class: "malformed-not-an-error", Summary: fmt.Sprintf("if-feature %q %s, features %s: %v - a malformed expression is an error", expr, place, cfg, map[bool]interface{}{true: "the module loads", false: e}[e == nil]),
+						Input: map[string]interface{}{"yang": y, "features": cfg}})
+				}
+			}
+		}
+	}
+	// and the well-formed ones in the same places load
+	for place, tmpl := range places {
+		for _, expr := range []string{"a or b", "not a", "(a and b) or not b", "b"} {
+			y := hdr + fmt.Sprintf(tmpl, expr) + "\n}"
+			_, lerr := parser.LoadModuleFromStringWithOptions(nil, y, parser.Options{Features: meta.FeaturesOff([]string{"a"})})
+			c.Evaluations++
+			if lerr != nil {
+				c.Violation(core.Replay{Kind: "property-failure", Class: "wellformed-refused", Summary: fmt.Sprintf("if-feature %q %s: %v", expr, place, lerr), Input: map[string]interface{}{"yang": y}})
+			}
+		}
+	}
+}
+
 func C11(c *core.Ctx) {
-	c.Rule = "complete enumeration of if-feature ASTs with ≤K operators (K=3 quick, K=4 thorough) over features {a,b,c} × 2 renderings × all 8 assignments (allow-list and deny-list configurations alternating, all-on for the all-true assignment), packed 400 guarded leaves per module; every token sequence up to length L over {a,b,(,),and,or,not} as a malformed stream (L=4 quick sample, L=5 thorough); every guardable statement kind; one deviation of every kind, on nodes written in place and on one of two expansions of a grouping (the other expansion must not move); the statement-kind module imports a module with a feature of its own (which imports a third) and includes a submodule that declares a feature; refines/augments of feature-disabled targets; cases and shorthand cases added by an augment inside a uses; lookup by name of the nodes of removed cases; deviations of a choice's default and of cases. non-trivial = expression with ≥1 operator; distinct by (rendering, assignment); deviations with several deviate statements of one kind and of different kinds"
+	c11malformedAnywhere(c)
+	c.Rule = "complete enumeration of if-feature ASTs with ≤K operators (K=3 quick, K=4 thorough) over features {a,b,c} × 2 renderings × all 8 assignments (allow-list and deny-list configurations alternating, all-on for the all-true assignment), packed 400 guarded leaves per module; every token sequence up to length L over {a,b,(,),and,or,not} as a malformed stream (L=4 quick sample, L=5 thorough); every guardable statement kind; one deviation of every kind, on nodes written in place and on one of two expansions of a grouping (the other expansion must not move); the statement-kind module imports a module with a feature of its own (which imports a third) and includes a submodule that declares a feature; refines/augments of feature-disabled targets; cases and shorthand cases added by an augment inside a uses; lookup by name of the nodes of removed cases; deviations of a choice's default and of cases. non-trivial = expression with ≥1 operator; distinct by (rendering, assignment); deviations with several deviate statements of one kind and of different kinds; nine malformed expressions in seven places (below a left-out node, after a false if-feature, in unused groupings, on a case, on a refine) under three configurations: always an error"
 	c.Assumptions = append(c.Assumptions,
 		"the Lean tokenizer model (blanks separate, parentheses are single tokens) is tied to the Go tokenizer only through the renderings generated here (regular and irregular blanks, parentheses with and without blanks)",
 		"parseRFC (recursive-descent recogniser, Lean, not proved complete) labels token sequences as inside/outside the RFC 7950 grammar")
